@@ -882,7 +882,7 @@ def evaluate(rep: C.Report, cases: list, tag: str, stats_acc: Counter, distinct:
                         "(application tree + internal nodes per the property)")
             if not ok:
                 nviol += 1
-                if nviol <= 6 or sig is None:
+                if nviol <= 6 or (sig is None and nviol <= 12):
                     rep.violation(f"oracle_{tag}_{stats_acc['evaluations']}", dict(base, kind="oracle", what=what,
                         expected=listing(spec), impl_counts=summary(c.impl) if c.impl else None,
                         expected_counts=summary(spec)), has_input=True, signature=sig)
@@ -903,7 +903,7 @@ def evaluate(rep: C.Report, cases: list, tag: str, stats_acc: Counter, distinct:
         # --- correspondence K_C08: implementation vs the (repaired) model
         if not agrees_fixed:
             stats_acc["disagreements"] += 1
-            if not c.dom or sig is None:
+            if (not c.dom or sig is None) and stats_acc["disagreements"] <= 12:
                 rep.violation(f"disagree_{tag}_{stats_acc['evaluations']}", dict(base, kind="correspondence",
                     what="TransformationGraph.add_expr differs from the model add_expr (K_C08)"),
                     has_input=False, signature=sig)
@@ -1028,5 +1028,12 @@ def do_replay(rep: C.Report, path: str) -> int:
             impl=listing(case.impl) if case.impl else case.impl_error, expected=listing(spec),
             what="replayed input still violates the property"), has_input=True,
             signature=d.get("signature"))
-    rep.coverage.update({"evaluations": 1, "replay_of": path})
-    return rep.finish(C.TRUSTED)
+    # a replay decides one input; it does not rewrite the evidence of the full run
+    for msg in rep.known_hits:
+        print(f"KNOWN-FINDING: property={PID} {msg}")
+    if rep.violations:
+        print(f"VIOLATION property={PID} replay={rep.violations[0][0]}")
+        return 1
+    print(f"OK property={PID} replay={path} (input no longer violates the property)"
+          if ok else f"OK property={PID} replay={path} (listed known finding)")
+    return 0
